@@ -1,6 +1,6 @@
 import GgrsModel.Driver.Codec
 import GgrsModel.Driver.Accept
-import GgrsModel.Driver.Monitors
+import GgrsModel.Driver.Monitors2
 
 open Ggrs.Driver
 
@@ -51,7 +51,7 @@ def runMonitors (props : List String) : IO UInt32 := do
     let cx := mkCtx sc
     IO.println (scenStats cx)
     for p in props do
-      for f in runMonitor p cx do
+      for f in runMonitor2 p cx do
         IO.println f.text
         n := n + 1
   IO.println s!"SUMMARY scenarios={ps.done.length} findings={n}"
